@@ -28,6 +28,7 @@ TWINS = [("hsquared", ["ClosedAreFinal", "CostOptimal"]), ("diag1", ["OpenSound"
          ("noparent", ["ParentOK", "ChainOK"]), ("popany", ["ClosedAreFinal", "CostOptimal"])]
 
 KEY_PIX = "pixel_id:truncation-not-nearest-centre"
+KEY_PIX_OTHER = "pixel_id:not-nearest-centre"
 KEY_SNAP = "snap:nearest-at-max-distance"
 MAX_REPLAYS_PER_KEY = 3
 
@@ -58,7 +59,11 @@ def classify(case, clause):
     if clause in ("start_is_not_the_named_cell", "goal_is_not_the_named_cell", "all_nan_but_route_exists"):
         # the library's own coordinate -> cell conversion did not return the nearest centre
         if tuple(pix[0]) not in ns or tuple(pix[1]) not in ng:
-            return KEY_PIX
+            # truncation answers the nearest index or the one before it (towards coords[0]) on each axis;
+            # any other wrong cell (mirrored / transposed axis, ...) is a different class
+            def trunc_like(p, named):
+                return any(p[0] in (r, r - 1) and p[1] in (c, c - 1) for (r, c) in named)
+            return KEY_PIX if trunc_like(pix[0], ns) and trunc_like(pix[1], ng) else KEY_PIX_OTHER
     if clause == "all_nan_but_route_exists":
         cr = [(r, c) for r in range(H) for c in range(W) if case["cross"][r][c]]
         far = (H - 1) ** 2 + (W - 1) ** 2
@@ -160,7 +165,7 @@ def maze(rng, H, W):
     return cross
 
 
-def maze_jobs(rng, n, sizes, events=False):
+def maze_jobs(rng, n, sizes, events=False, f32=True):
     jobs = []
     for _ in range(n):
         H, W = rng.choice(sizes)
@@ -188,6 +193,8 @@ def maze_jobs(rng, n, sizes, events=False):
                     centre(fx, cell[1]) + rng.choice([0, 0, 3, -3]) * fx["s"] // 10)
         conn = rng.choice([4, 8, 8])
         dtype = rng.choice([None, None, None, "float32"])
+        if not f32:
+            dtype = None
         jobs.append(mkjob(H, W, cross, conn, fy, fx, pt(s), pt(g), snapS, snapG, events=events, tag="maze",
                           style=rng.randrange(3), dtype=dtype))
     return jobs
@@ -488,9 +495,9 @@ def run(ctx):
 
 def run_code(ctx, tally, rng):
     # ---- R + T through the compiled public function
-    # quick: a seeded third of the 3x3 space (thorough: all of it, and 2x4, 2x5)
+    # quick: a seeded quarter of the 3x3 space (thorough: all of it, and 2x4, 2x5)
     rgrids = ctx.pick([(3, 3)], [(3, 3), (2, 4), (2, 5)])
-    k, of = ctx.pick((1, 3), (1, 1))
+    k, of = ctx.pick((1, 4), (1, 1))
     groups = [("R", layout_jobs(H, W, (4, 8), tag="replay_layouts", desc=(H == 2), keep=k, of=of, seed=ctx.seed))
               for (H, W) in rgrids]
     # snapping on the 3x3 space (quick: a seeded twelfth)
@@ -498,7 +505,8 @@ def run_code(ctx, tally, rng):
     groups.append(("R-snap", layout_jobs(3, 3, (8,), snap=1, tag="replay_snap", descx=True, keep=k, of=of, seed=ctx.seed)))
     # beyond the exhaustive scope
     sizes = [(4, 4), (4, 6), (5, 5), (6, 5), (5, 7), (7, 7), (6, 6), (3, 7)]
-    groups.append(("T-mazes", maze_jobs(rng, ctx.pick(500, 12000), sizes)))
+    # float32 surfaces: quick only in the interpreted group below (a second JIT signature costs 2.5 CPU-s per process)
+    groups.append(("T-mazes", maze_jobs(rng, ctx.pick(500, 12000), sizes, f32=(ctx.tier == "thorough"))))
     cj = coord_jobs(4, 5, COORD_SYSTEMS)
     if ctx.tier == "thorough":
         cj += coord_jobs(4, 5, COORD_SYSTEMS, conn=4,
